@@ -455,6 +455,12 @@ func checkMain(args []string) int {
 		fmt.Fprintln(os.Stderr, "no check for", id)
 		return 2
 	}
+	if v := os.Getenv("VERIF_ONLY"); v != "" && only < 0 {
+		// development aid: run a single case of the list (no evidence file is written)
+		if n, err := strconv.Atoi(v); err == nil {
+			only = n
+		}
+	}
 	c := newCtx(id, *tier, seed)
 	c.Only = only
 	func() {
